@@ -87,6 +87,9 @@ class PGen:
         r = self.r
         E = lambda: self.ival(paths)
         C = lambda: self.cond(paths)
+        # inside a nested Struct / Sequence / FocusedSeq the header fields are one scope further out
+        inner_paths = [(p if p[0] == "_params" else ["_"] + p) for p in paths]
+        EN = lambda: self.ival(inner_paths)
         X = self.small
         t = [
             lambda: ["Bytes", E()], lambda: ["BytesInteger", ["bin", "+", ["bin", "&", E(), 3], 1], r.random() < 0.5, r.choice([False, True, C()])],
@@ -102,16 +105,16 @@ class PGen:
             lambda: ["RepeatUntil", ["bin", r.choice(["==", ">=", "<"]), ["obj"], r.choice([0, 1, 200])], B],
             lambda: ["RepeatUntil", ["bin", "==", ["fn", "len", ["list"]], ["bin", "+", ["bin", "&", ["this", "n"], 1], 1]] if False else ["bin", "==", ["obj"], 0], ["name", "Int8sb"]],
             lambda: ["Prefixed", B, ["Bytes", ["bin", "&", E(), 1]], False], lambda: ["Prefixed", B, ["name", "GreedyBytes"], r.random() < 0.4],
-            lambda: ["PrefixedArray", B, X()], lambda: ["PascalString", B, "utf8"], lambda: ["FocusedSeq", "v", [["c", ["Computed", E()]], ["v", ["Bytes", ["this", "c"]]], [None, ["Padding", 1]]]],
-            lambda: ["Sequence", [[None, X()], ["q", B], [None, ["Bytes", ["bin", "&", ["this", "q"], 1]]], [None, ["Computed", E()]]]],
+            lambda: ["PrefixedArray", B, X()], lambda: ["PascalString", B, "utf8"], lambda: ["FocusedSeq", "v", [["c", ["Computed", EN()]], ["v", ["Bytes", ["this", "c"]]], [None, ["Padding", 1]]]],
+            lambda: ["Sequence", [[None, X()], ["q", B], [None, ["Bytes", ["bin", "&", ["this", "q"], 1]]], [None, ["Computed", EN()]]]],
             lambda: ["Struct", [["i", B], ["o", ["Bytes", ["bin", "&", ["this", "_", r.choice(["n", "m"])], 3]]], ["r", ["Computed", ["bin", "+", ["this", "_root", "n"], ["this", "i"]]]],
                                 ["p", ["Computed", ["this", "_params", "k"]]]]],
-            lambda: ["Sequence", [["r", ["Rebuild", B, E()]], ["d", ["Bytes", ["bin", "&", ["this", "r"], 3]]], ["k", ["Default", B, ["bin", "&", E(), 1]]],
-                                  [None, ["Switch", ["this", "k"], [[0, B], [1, ["name", "Int16ub"]]], None]], ["c", ["Computed", E()]], [None, ["If", ["bin", "==", ["this", "c"], 1], B]]]],
-            lambda: ["Struct", [["r", ["Rebuild", B, E()]], ["d", ["Bytes", ["bin", "&", ["this", "r"], 3]]], ["k", ["Default", B, ["bin", "&", E(), 1]]],
-                                ["w", ["Switch", ["this", "k"], [[0, B], [1, ["name", "Int16ub"]]], None]], ["g", ["Const", 2, B]] if False else ["c", ["Computed", E()]],
+            lambda: ["Sequence", [["r", ["Rebuild", B, EN()]], ["d", ["Bytes", ["bin", "&", ["this", "r"], 3]]], ["k", ["Default", B, ["bin", "&", EN(), 1]]],
+                                  [None, ["Switch", ["this", "k"], [[0, B], [1, ["name", "Int16ub"]]], None]], ["c", ["Computed", EN()]], [None, ["If", ["bin", "==", ["this", "c"], 1], B]]]],
+            lambda: ["Struct", [["r", ["Rebuild", B, EN()]], ["d", ["Bytes", ["bin", "&", ["this", "r"], 3]]], ["k", ["Default", B, ["bin", "&", EN(), 1]]],
+                                ["w", ["Switch", ["this", "k"], [[0, B], [1, ["name", "Int16ub"]]], None]], ["g", ["Const", 2, B]] if False else ["c", ["Computed", EN()]],
                                 ["z", ["IfThenElse", ["bin", "==", ["this", "c"], 1], B, ["Bytes", 2]]]]],
-            lambda: ["FocusedSeq", "v", [["k", ["Default", B, ["bin", "&", E(), 1]]], ["v", ["Array", ["bin", "+", ["this", "k"], 1], B]], ["t", ["Rebuild", B, ["fn", "len", ["this", "v"]]]]]],
+            lambda: ["FocusedSeq", "v", [["k", ["Default", B, ["bin", "&", EN(), 1]]], ["v", ["Array", ["bin", "+", ["this", "k"], 1], B]], ["t", ["Rebuild", B, ["fn", "len", ["this", "v"]]]]]],
             lambda: ["Hex", X()], lambda: ["Enum", B, [["a", 1], ["b", 2]]], lambda: ["FlagsEnum", B, [["r", 1], ["w", 2], ["rw", 3]]], lambda: ["Mapping", B, [["zero", 0], ["one", 1], ["two", 2], ["three", 3], [tag(b"k"), 200], [None, 254]]], lambda: ["Enum", ["name", "Int16ub"], [["x", 0], ["y", 300]]],
             lambda: ["Pointer", E(), B], lambda: ["Peek", ["name", "Int16ub"]], lambda: ["Peek", r.choice([["Const", tag(bytes([r.choice([0, 1, 2])])), None], ["OneOf", B, [0, 1]],
                                                                                  ["Struct", [["a", B], [None, ["Check", ["bin", "<", ["this", "a"], 2]]], ["b", ["name", "Int16ub"]]]]])], lambda: ["name", "Tell"], lambda: ["Union", 0, [["a", ["name", "Int16ub"]], ["b", ["Bytes", 2]]]],
@@ -123,6 +126,11 @@ class PGen:
             lambda: ["StopIf", ["bin", "==", E(), 99]], lambda: ["Optional", ["Const", tag(b"\xfe"), None]] if False else ["Select", [["Const", tag(b"\xfe"), None], B]],
             lambda: ["RestreamData", tag(b"\x01\x02"), ["name", "Int16ub"]],
         ]
+        if getattr(self, "force_derived", False):
+            # programs dedicated to members that build derives by itself inside Sequence / Struct / FocusedSeq (and whose values
+            # steer later members): the templates are picked out of the list by what they contain
+            tt = [f for f in t if any(k in repr(f()) for k in ("'Rebuild'", "'Default'"))]
+            return r.choice(tt)()
         return r.choice(t)()
 
     def program(self):
@@ -131,7 +139,9 @@ class PGen:
         paths = [["n"], ["n"], ["m"], ["_params", "k"]]
         k = r.randint(2, 7)
         for i in range(k):
+            self.force_derived = bool(getattr(self, "derived_program", False) and i < 3)
             m = self.member(paths, 2, i)
+            self.force_derived = False
             nm = "v%d" % i
             ms.append([nm, m])
             # dependent probes: context values produced by generated code must influence later bytes
@@ -290,9 +300,9 @@ def run_program(ctx, prog, kw, ins, sample=False):
             ctx.violation("%s:%s" % (mechkey(prog, "build", bc), cul), "interpreter builds %s ; compiled %s (value %r)" % (bi[1].hex()[:120], ("raised %s: %s" % (bc[1], bc[2])) if bc[0] != "ok" else "builds " + bc[1].hex()[:120], strip(ri[1])), case)
             return
         # the same value with every member that build can derive by itself left out (Rebuild/Default/Const/Computed)
-        v2 = blank_derived(prog, ri[1])
-        bi2 = outcome(lambda: d.build(v2, **kw))
-        if bi2[0] == "ok":
+        for v2 in [blank_derived(prog, ri[1])] + blank_one_by_one(prog, ri[1]):
+          bi2 = outcome(lambda: d.build(v2, **kw))
+          if bi2[0] == "ok":
             ctx.ev()
             ctx.count("comparisons")
             ctx.count("comparisons_build_from_blanked_value")
@@ -355,6 +365,35 @@ def blank_derived(r, v):
     return v
 
 
+def blank_one_by_one(r, v, limit=8):
+    """variants of the value with exactly one derived member (at depth <= 2) left out: the other derived members keep the parsed
+    values, so the layout that build chooses stays the one that was parsed and the interpreter can usually build the variant"""
+    out = []
+
+    def rec(r, v, put, depth):
+        if len(out) >= limit or depth > 2:
+            return
+        k = r[0]
+        if k == "Struct" and isinstance(v, dict):
+            for nm, m in r[1]:
+                if nm is None or nm not in v:
+                    continue
+                if m[0] in DERIVED:
+                    out.append(put({kk: vv for kk, vv in v.items() if kk != nm}))
+                else:
+                    rec(m, v[nm], lambda x, nm=nm: put(dict(v, **{nm: x})), depth + 1)
+        elif k == "Sequence" and isinstance(v, list):
+            for i, ((nm, m), x) in enumerate(zip(r[1], v)):
+                if m[0] in DERIVED:
+                    out.append(put(list(v[:i]) + [None] + list(v[i + 1:])))
+                else:
+                    rec(m, x, lambda y, i=i: put(list(v[:i]) + [y] + list(v[i + 1:])), depth + 1)
+        elif k == "Array" and isinstance(v, list) and v:
+            rec(r[2], v[0], lambda y: put([y] + list(v[1:])), depth + 1)
+    rec(r, v, lambda x: x, 0)
+    return out[:limit]
+
+
 def derived_kinds(prog):
     ks = set()
 
@@ -386,6 +425,7 @@ def run(ctx):
     nin = ctx.pick(30, 80)
     for i in range(n):
         g = PGen(rng)
+        g.derived_program = (i % 4 == 1)
         prog = g.program() if i % 4 else sized_program(rng)
         kw = {"k": rng.choice([0, 1, 2, 3])}
         run_program(ctx, prog, kw, inputs(rng, nin), sample=(i < 2 and ctx.index < 2))
